@@ -43,7 +43,7 @@ def loggedCrossings (events : List Json) : E (List Int) := do
     | _ => throw "bad event"
   pure out
 
-def evalLayout (cfg : Cfg) (es : InEdges) (obs : Json) : E Verdict := do
+def evalLayout (cfg : Cfg) (es : InEdges) (obs : Json) (heavy : Bool := true) : E Verdict := do
   let mut v : Verdict := {}
   if let some c := fieldOpt obs "crash" then
     let site := (fieldOpt obs "site").bind (·.getStr?.toOption) |>.getD ""
@@ -152,7 +152,7 @@ def evalLayout (cfg : Cfg) (es : InEdges) (obs : Json) : E Verdict := do
           | .arr #[a, b] => pure (some (← a.getInt?, ← b.getInt?))
           | _ => pure none
       | none => pure []
-    for (k, ok, why) in tfunLayout cfg es comps o logged pv do
+    for (k, ok, why) in tfunLayout cfg es comps o logged pv heavy do
       v := v.add k ok why
   -- C16
   if (cfg.p4 == 1 || cfg.p4 == 2) && cfg.virt && (comps o).length == 1 then
@@ -339,14 +339,14 @@ def evalMulti (j : Json) (obs : Json) : E Verdict := do
   | _, _ => throw s!"bad multi case {rel}"
   pure v
 
-def processCase (j : Json) : E Verdict := do
+def processCase (j : Json) (heavy : Bool := true) : E Verdict := do
   let op ← (← field j "op").getStr?
   let obs ← field j "obs"
   match op with
   | "layout" =>
     let cfg ← parseCfg (← field j "cfg")
     let es ← parseEdges (← field j "edges")
-    evalLayout cfg es obs
+    evalLayout cfg es obs heavy
   | "multi" => evalMulti j obs
   | "concurrent" =>
     if let some c := fieldOpt obs "crash" then
@@ -371,12 +371,12 @@ def mergeItems (items : List (String × String)) : List (String × String) :=
       | some o => (k, o)
       | none => (k, vs.head!)
 
-def processLine (line : String) : String :=
+def processLine (line : String) (heavy : Bool := true) : String :=
   match Json.parse line with
   | .error e => (Json.mkObj [("error", Json.str s!"parse: {e}")]).compress
   | .ok j =>
     let id := (j.getObjVal? "id").toOption.bind (·.getStr?.toOption) |>.getD "?"
-    match processCase j with
+    match processCase j heavy with
     | .error e => (Json.mkObj [("id", Json.str id), ("error", Json.str e)]).compress
     | .ok v => (Json.mkObj [("id", Json.str id), ("v", Json.mkObj ((mergeItems v.items).map fun (k, s) => (k, Json.str s)))]).compress
 
